@@ -4,7 +4,10 @@ rows = []
 for d in sorted(glob.glob('/verif/seeded/*-*')):
     m = json.load(open(d + '/meta.json'))
     det = []
-    for c in m.get('check_results', []):
+    rc = m.get('recheck') or {}
+    if 'detected' in rc and not m.get('status'):
+        m['detected'] = rc['detected']
+    for c in (rc.get('check_results') or m.get('check_results', [])):
         for f in c['failed']:
             det.append(c['check'] + ': ' + f.replace('assert=', '/ '))
     first = (m.get('needs_to_manifest', '').strip().split('\n') or [''])[0][:140]
@@ -12,7 +15,7 @@ for d in sorted(glob.glob('/verif/seeded/*-*')):
 with open('/verif/seeded/INDEX.md', 'w') as f:
     f.write('# Seeded changes (from independent sub-agents) and what catches them\n\n')
     f.write('Each directory holds patch.diff, demo_test.go and meta.json (what the change needs to manifest, what was run, result).\n')
-    f.write('"detected" = the quick check of the named property exits 1 with a VIOLATION line on the changed tree.\n\n')
+    f.write('"detected" = the quick check of the named property exits 1 with a VIOLATION line on the changed tree (as of the last tools/seedrecheck.py run against the current machinery and /repo HEAD, where one was made).\n\n')
     f.write('| seed | result | caught by (check: harness / assertion) |\n|---|---|---|\n')
     for r in rows:
         f.write('| %s | %s | %s |\n' % (r[0], r[1], r[2]))
